@@ -214,8 +214,8 @@ theorem goodOp_vec (p n : Nat) (lanes : Option Txt) (shape idx : Option Nat) (hp
         cases idx with
         | some k => simp [idxText, lit, sk_true, skipWs, isWs, dropPrefix]
         | none => simpa [idxText] using lit_none_of_follow rest hf 43 [] (by omega)
-      have himm := immediate_word' g p (showNat n ++ shapeText lanes shape) (idxText idx ++ rest) hg hal hw hstop hplus
-      have hid := identifier_word' g p (showNat n ++ shapeText lanes shape) (idxText idx ++ rest) hg hal hw hstop hplus
+      have himm := immediate_word' g p (showNat n ++ shapeText lanes shape) (idxText idx ++ rest) hg (alpha_idFirst p hal) hw hstop hplus
+      have hid := identifier_word' g p (showNat n ++ shapeText lanes shape) (idxText idx ++ rest) hg (alpha_idFirst p hal) hw hstop hplus
       simp only [List.append_assoc] at himm hid
       refine ⟨skipWs (idxText idx ++ rest), himm, hid, ?_, ?_⟩
       · cases idx with
@@ -267,7 +267,7 @@ theorem covered_vec (last fst : Bool) (p n : Nat) (lanes : Option Txt) (shape id
     subst this
     have := (goodOp_vec p n lanes shape idx hp hl hs).any last
     cases fst with
-    | true => simpa [joinInner] using this
+    | true => simpa [joinInner] using this.toFirst
     | false => simpa [joinInner] using this.notFirst
   · have hsp := showNat_ne_sp n
     simp only [processOperand, RegTok.ofElem, vecElem, hsp, processRegister, expectOp, expectReg, expectElem]
